@@ -114,6 +114,7 @@ theorem rel_step {s : State} {r : Ref} (I : Inv s) (R : Rel s r) (op : Op) :
     | none => exact R.2 k
     | some n => simp only; split <;> exact R.2 k
   | clear => exact ⟨habs, fun k => R.2 k⟩
+  | lookup i => exact ⟨habs, fun k => R.2 k⟩
   | deleteNode i =>
     simp only [Ref.step]
     have hl : r.live[i]? = (s.nodes[i]?).map (fun n => (n.inst, n.state)) := by
